@@ -23,6 +23,7 @@ fn main() {
   let mut seed: u64 = std::env::var("VERIF_SEED").ok().and_then(|s| s.trim().parse::<i128>().ok()).map(|x| x as u64).unwrap_or(20260926);
   let mut replay: Option<String> = None;
   let mut worker: Option<(String, usize, usize, String)> = None;
+  let mut aux: Option<(String, String)> = None;
   let mut i = 2;
   while i < args.len() {
     match args[i].as_str() {
@@ -37,6 +38,10 @@ fn main() {
       "--replay" => {
         replay = Some(args[i + 1].clone());
         i += 2;
+      }
+      "--aux" => {
+        aux = Some((args[i + 1].clone(), args[i + 2].clone()));
+        i += 3;
       }
       "--worker" => {
         worker = Some((args[i + 1].clone(), args[i + 2].parse().unwrap(), args[i + 3].parse().unwrap(), args[i + 4].clone()));
@@ -54,7 +59,9 @@ fn main() {
   };
   install_panic_hook();
   let env = Env { prop: id.clone(), tier, seed, findings: Findings::load(&id), strict: replay.is_some() };
-  let code = if let Some(f) = replay {
+  let code = if let Some((n, a)) = aux {
+    p.aux(&env, &n, &a)
+  } else if let Some(f) = replay {
     run_replay(p.as_ref(), &env, &f)
   } else if let Some((t, s, n, f)) = worker {
     run_worker(p.as_ref(), &env, &t, s, n, &f)
